@@ -186,6 +186,21 @@ class Verifier(CallMixin, EvalMixin, ExecMixin, SpecMixin, Base):
             a, b, c = z3.Consts("a!eq b!eq c!eq", Val)
             ax.append(z3.ForAll([a, b], f(a, b) == f(b, a)))
             ax.append(z3.ForAll([a, b, c], z3.Implies(z3.And(f(a, b), f(b, c)), f(a, c))))
+        if "truthy_obj" in self.uf:
+            from .state import _all_subclasses
+
+            tf = self.uf["truthy_obj"]
+            r, e = z3.Ints("r!tr e!tr")
+            for cls in list(self.classes.ids):
+                if cls.__name__ == "Token" or cls is type or not isinstance(cls, type):
+                    continue
+                try:
+                    fam = {cls} | _all_subclasses(cls)
+                except TypeError:
+                    continue
+                if any("__bool__" in vars(c2) or "__len__" in vars(c2) for c1 in fam for c2 in c1.__mro__ if c2 is not object):
+                    continue
+                ax.append(z3.ForAll([r, e], z3.Implies(self.classes.isa(cls, smt.CLS[r]), tf(r, e)), patterns=[tf(r, e)]))
         for name, lam, src in C.AXIOMS:
             ax.append(self.translate_axiom(lam))
         return ax
@@ -195,6 +210,10 @@ class Verifier(CallMixin, EvalMixin, ExecMixin, SpecMixin, Base):
         bound = [z3.Const(f"{p}!ax", Val) for p in params]
         env = {p: SV(b) for p, b in zip(params, bound)}
         st = State()
+        for p, b in zip(params, bound):
+            ty = getattr(lam, "_types", {}).get(p)
+            if ty:
+                env[p] = self.typed(st, b, ty)
         body = self.spec_bool(lam.body, st, {}, env=env, old=st)
         facts = z3.And(*st.pc) if st.pc else z3.BoolVal(True)
         return z3.ForAll(bound, z3.Implies(facts, body)) if bound else body
